@@ -33,11 +33,14 @@ def trM2 (m : Array α) (d : Nat) : α :=
     sumList ((List.range d).map fun k => gram m d j k * gram m d k j))
 
 /-- `math::schmidt_number` : the perfect-square test on the length (`num::integer::Roots::sqrt`
-is the exact integer square root), then `norm_sq * norm_sq / kinv`. -/
+is the exact integer square root), then `norm_sq * norm_sq / kinv`.  An empty array passes the
+length test (`0 = 0·0`) and nalgebra's `try_svd` panics ("Cannot compute the SVD of an empty
+matrix"). -/
 def schmidt (amps : Array (Cx α)) : Outcome α :=
   let len := amps.size
   let dim := Nat.sqrt len
   if len ≠ dim * dim then .err "not-square"
+  else if dim = 0 then .panic "nalgebra: SVD of an empty matrix"
   else
     let m := mags amps
     let normSq := trM m dim
